@@ -4,10 +4,10 @@
 every block ends in `_ => None` and its literal arms agree with the extracted runs, the model's
 "last run extends to infinity" is exact; otherwise the evidence says the tail was only sampled.
 prints: tail=exact | tail=sampled(<why>) | TAIL-MISMATCH(<why>)"""
-import json, re, sys
+import json, os, re, sys
 d = json.load(open(sys.argv[1]))
 try:
-    src = open('/repo/src/version.rs').read()
+    src = open(os.path.join(os.environ.get('FQ_REPO', '/repo'), 'src/version.rs')).read()
     i = src.index('const fn get(')
     j = src.index('fn from_n', i)
     body = src[i:j]
